@@ -19,6 +19,7 @@ RULE = ("fault sequences on valid calls: NaN/+-inf/huge at arbitrary "
 RULE += ("  Also: user functions returning int / float32 / list values, unhashable callable callbacks, callbacks returning truthy values; success is also judged against the TRUE violation at res.x (undefined -> never successful).")
 RULE += (" Initial radii of 1e60..1e150.")
 RULE += (" Callback forms 'falsy' (callable, false in a boolean context) and (xk, intermediate_result=None).")
+RULE += (" Options dict objects that served an earlier call of another dimension.")
 ASSUMPTIONS = [
     "debug=False (debug assertions are the documented reporting channel)",
     "finite time = logical budget: loop iterations inside cobyqa code "
@@ -240,7 +241,7 @@ def make_spec(case):
         return spec
     # misc: readonly arrays, tiny / anisotropic boxes, radius_final = 0
     kind = str(rng.choice(["readonly", "tinybox", "aniso", "rf0", "dicts",
-                           "funnone"]))
+                           "funnone", "reused_options"]))
     if kind == "tinybox":
         spec = gen.general(rng, bound_patterns=("tiny", "narrow",
                                                 "nearfixed"),
@@ -259,6 +260,13 @@ def make_spec(case):
     elif kind == "funnone":
         spec = gen.general(rng, con=str(rng.choice(["nl", "both", "lin"])),
                            forms=forms, fun_none=1.0, maxfev=(20, 100))
+    elif kind == "reused_options":
+        # the options dict object was used before for a problem of another
+        # dimension (a valid call must not be refused because of that)
+        spec = gen.general(rng, forms=forms, maxfev=(20, 100))
+        spec["options"].pop("nb_points", None)
+        spec["prelude_n"] = int(rng.choice(
+            [k for k in (1, 2, 3, 5, 7) if k != spec["n"]]))
     else:
         spec = gen.general(rng, forms=forms, maxfev=(20, 100))
         spec["readonly"] = True
